@@ -64,16 +64,14 @@ impl BigInt {
     }
 
     pub fn as_int(&self) -> Option<Int> {
-        let (sign, u64_digits) = self.0.to_u64_digits();
-        let u64_digit = match u64_digits.len() {
-            0 => Some(BigNum::zero()),
-            1 => Some((*u64_digits.first().unwrap()).into()),
-            _ => None,
-        }?;
-        match sign {
-            num_bigint::Sign::NoSign | num_bigint::Sign::Plus => Some(Int::new(&u64_digit)),
-            num_bigint::Sign::Minus => Some(Int::new_negative(&u64_digit)),
+        // the range of an Int is the range of a CBOR integer: -2^64 ..= 2^64 - 1
+        const INT_MIN: i128 = -(1i128 << 64);
+        const INT_MAX: i128 = (1i128 << 64) - 1;
+        let x = num_traits::ToPrimitive::to_i128(&self.0)?;
+        if x > INT_MAX || x < INT_MIN {
+            return None;
         }
+        Some(Int(x))
     }
 
     pub fn from_str(text: &str) -> Result<BigInt, JsError> {
